@@ -154,7 +154,7 @@ def check_invariants(tr):
     return bad, keys
 
 
-class Hang(Exception):
+class Hang(BaseException):
     pass
 
 
